@@ -15,7 +15,7 @@ def run(ctx):
     trace = os.path.join(ctx.work, "hook_trace.ndjson")
     ctx.assumptions += ["per-loop (not per-iteration) scope and the try/catch/finally shared scope follow the code where the statement leaves them open",
                         "a module reading an outer name through member syntax is left open"]
-    fams = [("c04-nest", progs.fam_c04(2)), ("c04-closures", progs.fam_closures()), ("c04-delete", progs.fam_c04_delete(3 if ctx.quick() else 1)), ("c04-ext", progs.fam_c04_ext(29 if ctx.quick() else 5)),
+    fams = [("c04-nest", progs.fam_c04(2)), ("c04-closures", progs.fam_closures()), ("c04-delete", progs.fam_c04_delete(3 if ctx.quick() else 1)), ("c04-ext", progs.fam_c04_ext(29 if ctx.quick() else 5)), ("c04-hostnil", progs.fam_c04_hostnil()),
             ("c04-rand", progs.rand_programs(ctx.seed + 7, 400 if ctx.quick() else 6000, maxdepth=4 if ctx.quick() else 5)),
             ("c04-rand2", progs.rand2_programs(ctx.seed + 107, 400 if ctx.quick() else 6000))]
     if not ctx.quick():
